@@ -114,8 +114,18 @@ func (w *World) faultsInc(kind string) {
 // tick advances the fake clock by d (all timers within d fire in order).
 func (w *World) tick(d time.Duration) {
 	w.ev("tick", "d=%v", d)
-	time.Sleep(d)
+	sleepPast(d)
 	w.simTime += d
+}
+
+// sleepPast advances the fake clock by d and then by one more nanosecond. A timer of the
+// system that is due at exactly the instant at which the driver wakes up may fire before or
+// after the driver resumes (timers with equal deadlines are not ordered, and a due timer only
+// fires once the bubble is idle again); the extra nanosecond makes the bubble idle once more,
+// so that every timer due at that instant has fired before the driver acts.
+func sleepPast(d time.Duration) {
+	time.Sleep(d)
+	time.Sleep(time.Nanosecond)
 }
 
 var tickChoices = []time.Duration{time.Millisecond, 5 * time.Millisecond, 20 * time.Millisecond, 100 * time.Millisecond, 500 * time.Millisecond, 2 * time.Second, 10 * time.Second, 60 * time.Second, 300 * time.Second}
